@@ -528,6 +528,54 @@ theorem dropped_dropChildren_key (g : Graph) (next w p : Nat) (l : List (Nat × 
       exact dropped_dropChild_key g s a.1 next w (by rw [← h]; exact hc)
     · exact ih _ h (by unfold dropChild; rw [regs_length_setCr]; exact hc)
 
+/-- what a drop can newly drop -/
+theorem dropped_dropParent_new (g : Graph) (s : State) (child parent v w : Nat) (k : Key)
+    (h : dropped (dropParent g s child parent v) w k = true) :
+    dropped s w k = true ∨ (k.1 = true ∧ k.2.2 = (g.node parent).cls) := by
+  unfold dropParent at h
+  unfold dropped at h ⊢
+  rcases cr_setCr_cases s (g.node child).cls
+    (fun r => { r with droppedSetup := regAdd r.droppedSetup ((g.node parent).cls, v) }) k.2.1 with h1 | ⟨_, h1⟩
+  · rw [h1] at h; exact Or.inl h
+  · rw [h1] at h
+    cases hk : k.1
+    · simp only [hk, Bool.false_eq_true, if_false] at h ⊢
+      exact Or.inl h
+    · simp only [hk, if_true] at h ⊢
+      rw [List.contains_iff_mem, mem_regWorkers_regAdd] at h
+      rcases h with h | ⟨_, h⟩
+      · left; rw [List.contains_iff_mem]; exact h
+      · right; exact ⟨trivial, h⟩
+
+theorem dropped_dropChild_new (g : Graph) (s : State) (parent child v w : Nat) (k : Key)
+    (h : dropped (dropChild g s parent child v) w k = true) :
+    dropped s w k = true ∨ (k.1 = false ∧ k.2.2 = (g.node child).cls) := by
+  unfold dropChild at h
+  unfold dropped at h ⊢
+  rcases cr_setCr_cases s (g.node parent).cls
+    (fun r => { r with droppedCleanup := regAdd r.droppedCleanup ((g.node child).cls, v) }) k.2.1 with h1 | ⟨_, h1⟩
+  · rw [h1] at h; exact Or.inl h
+  · rw [h1] at h
+    cases hk : k.1
+    · simp only [hk, Bool.false_eq_true, if_false] at h ⊢
+      rw [List.contains_iff_mem, mem_regWorkers_regAdd] at h
+      rcases h with h | ⟨_, h⟩
+      · left; rw [List.contains_iff_mem]; exact h
+      · right; exact ⟨trivial, h⟩
+    · simp only [hk, if_true] at h ⊢
+      exact Or.inl h
+
+theorem dropped_dropChildren_new (g : Graph) (next v w : Nat) (k : Key) (l : List (Nat × List String)) (s : State)
+    (h : dropped (l.foldl (fun s (p, _) => dropChild g s p next v) s) w k = true) :
+    dropped s w k = true ∨ (k.1 = false ∧ k.2.2 = (g.node next).cls) := by
+  induction l generalizing s with
+  | nil => exact Or.inl h
+  | cons a r ih =>
+    simp only [List.foldl_cons] at h
+    rcases ih _ h with h1 | h1
+    · exact dropped_dropChild_new g s a.1 next v w k h1
+    · exact Or.inr h1
+
 /-! ## frames -/
 
 /-- a piece of a step that changes dynamic node records and the store only -/
@@ -975,16 +1023,18 @@ inductive Move (g : Graph) (w : Nat) (s s' : State) : Prop
   | pushUp (last c : Nat) :
       (s.wd w).path.getLast? = some last → (s'.wd w).path = (s.wd w).path ++ [c] →
       c ∈ (g.node last).setup.map (·.1) → dropped s w (true, (g.node last).cls, (g.node c).cls) = false →
-      (∀ k, dropped s' w k = dropped s w k) → Move g w s s'
+      (∀ k, dropped s' w k = dropped s w k) → relevant g w c = true → Move g w s s'
   | pushDown (last c : Nat) :
       (s.wd w).path.getLast? = some last → (s'.wd w).path = (s.wd w).path ++ [c] →
       c ∈ (g.node last).cleanup.map (·.1) → dropped s w (false, (g.node last).cls, (g.node c).cls) = false →
       ((s.wd w).path.length = 1 ∨ isUp g ((s.wd w).path.getD ((s.wd w).path.length - 2) 0) last = false) →
-      (∀ k, dropped s' w k = dropped s w k) → Move g w s s'
+      (∀ k, dropped s' w k = dropped s w k) → relevant g w c = true → Move g w s s'
   | pop (next : Nat) :
       (s.wd w).path.getLast? = some next → 2 ≤ (s.wd w).path.length → (s'.wd w).path = (s.wd w).path.dropLast →
       (∀ k, dropped s w k = true → dropped s' w k = true) →
-      dropped s' w (posKey g ((s.wd w).path.getD ((s.wd w).path.length - 2) 0) next) = true → Move g w s s'
+      dropped s' w (posKey g ((s.wd w).path.getD ((s.wd w).path.length - 2) 0) next) = true →
+      (∀ k, dropped s' w k = true → dropped s w k = true ∨
+        (k.1 = isUp g ((s.wd w).path.getD ((s.wd w).path.length - 2) 0) next ∧ k.2.2 = (g.node next).cls)) → Move g w s s'
 
 theorem isUp_parent (g : Graph) (hsym : EdgeSym g) (last c : Nat) (hc : c ∈ (g.node last).setup.map (·.1)) :
     isUp g last c = true := by
@@ -1005,17 +1055,17 @@ theorem isUp_child (g : Graph) (d : Nat → Nat) (hr : Ranked g d) (hsym : EdgeS
 theorem move_dec (g : Graph) (d : Nat → Nat) (hr : Ranked g d) (hsym : EdgeSym g) (w : Nat) (s s' : State)
     (hwalk : Walk g d (s.wd w).path) (m : Move g w s s') : phi g s' w < phi g s w ∧ Walk g d (s'.wd w).path := by
   cases m with
-  | pushUp last c hl hp hc hnd hD =>
+  | pushUp last c hl hp hc hnd hD _ =>
     have hk : posKey g last c = (true, (g.node last).cls, (g.node c).cls) := by
       unfold posKey; rw [isUp_parent g hsym last c hc]
     refine ⟨phi_push g d hr s s' w last c hwalk hl hp hD (by rw [hk]; exact key_setup_mem g last c hc) (by rw [hk]; exact hnd), ?_⟩
     rw [hp]; exact walk_pushUp g d hr hsym _ last c hwalk hl hc
-  | pushDown last c hl hp hc hnd hmode hD =>
+  | pushDown last c hl hp hc hnd hmode hD _ =>
     have hk : posKey g last c = (false, (g.node last).cls, (g.node c).cls) := by
       unfold posKey; rw [isUp_child g d hr hsym last c hc]
     refine ⟨phi_push g d hr s s' w last c hwalk hl hp hD (by rw [hk]; exact key_cleanup_mem g last c hc) (by rw [hk]; exact hnd), ?_⟩
     rw [hp]; exact walk_pushDown g d hr hsym _ last c hwalk hl hc hmode
-  | pop next hl hlen hp hD hk =>
+  | pop next hl hlen hp hD hk _ =>
     refine ⟨phi_pop g s s' w next hl hlen hp hD hk, ?_⟩
     rw [hp]; exact walk_pop g d _ hwalk
 
@@ -1023,15 +1073,16 @@ theorem Move.of_fr {g : Graph} {w : Nat} {s sF s' : State} (a : Fr s sF) (m : Mo
   have hwd : sF.wd w = s.wd w := a.wd w
   have hdr : ∀ k, dropped sF w k = dropped s w k := fun k => dropped_of_regs s sF a.regs w k
   cases m with
-  | pushUp last c hl hp hc hnd hD =>
+  | pushUp last c hl hp hc hnd hD hrel =>
     rw [hwd] at hl hp; rw [hdr] at hnd
-    exact .pushUp last c hl hp hc hnd (fun k => by rw [hD, hdr])
-  | pushDown last c hl hp hc hnd hmode hD =>
+    exact .pushUp last c hl hp hc hnd (fun k => by rw [hD, hdr]) hrel
+  | pushDown last c hl hp hc hnd hmode hD hrel =>
     rw [hwd] at hl hp hmode; rw [hdr] at hnd
-    exact .pushDown last c hl hp hc hnd hmode (fun k => by rw [hD, hdr])
-  | pop next hl hlen hp hD hk =>
-    rw [hwd] at hl hp hlen hk
+    exact .pushDown last c hl hp hc hnd hmode (fun k => by rw [hD, hdr]) hrel
+  | pop next hl hlen hp hD hk hnew =>
+    rw [hwd] at hl hp hlen hk hnew
     exact .pop next hl hlen hp (fun k hk' => hD k (by rw [hdr]; exact hk')) hk
+      (fun k hk' => by rw [← hdr]; exact hnew k hk')
 
 /-- every class of the graph has its registers -/
 def ClsOK (g : Graph) (s : State) : Prop := ∀ n, n < g.nodes.length → (g.node n).cls < s.regs.length
@@ -1099,7 +1150,7 @@ theorem afterTraverse_cont (g : Graph) (d : Nat → Nat) (hr : Ranked g d) (hsym
     rw [afterTraverse_up_eq _ sF w next prev s2 evs2 hrd]
     dsimp only
     have hwX : w < (dropParent (vis g sv) s2 prev next w).workers.length := hw2
-    refine ⟨.pop next hlast hlen ?_ ?_ ?_, ?_⟩
+    refine ⟨.pop next hlast hlen ?_ ?_ ?_ ?_, ?_⟩
     · rw [path_popPath _ w hwX]
       show (s2.wd w).path.dropLast = _
       rw [f2.wd w]
@@ -1114,6 +1165,12 @@ theorem afterTraverse_cont (g : Graph) (d : Nat → Nat) (hr : Ranked g d) (hsym
       have := dropped_dropParent_key (vis g sv) s2 prev next w (by rw [vis_cls, f2.regs]; exact hcls prev hpn)
       rw [vis_cls, vis_cls] at this
       exact this
+    · intro k hk
+      unfold popPath at hk
+      rw [dropped_setWd] at hk
+      rcases dropped_dropParent_new _ s2 prev next w w k hk with h | h
+      · left; rw [← hd2]; exact h
+      · right; rw [← hprev, hup, ← vis_cls g sv]; exact h
     · unfold popPath dropParent
       exact f2.keep.trans ((keep_setCr s2 _ _).trans (keep_setWd _ w _))
   · subst hdir
@@ -1135,7 +1192,7 @@ theorem afterTraverse_cont (g : Graph) (d : Nat → Nat) (hr : Ranked g d) (hsym
         simp only [hrev] at hc ⊢
         have f3 : Fr sD s3 := fr_reverseNode _ sD next w s3 evs3 hrev
         have hw3 : w < s3.workers.length := by rw [f3.workers, kD.workersLen]; exact hw2
-        refine ⟨.pop next hlast hlen ?_ ?_ ?_, ?_⟩
+        refine ⟨.pop next hlast hlen ?_ ?_ ?_ ?_, ?_⟩
         · rw [path_popPath _ w hw3, f3.wd w, wdD, f2.wd w]
         · intro k hk
           unfold popPath
@@ -1148,6 +1205,12 @@ theorem afterTraverse_cont (g : Graph) (d : Nat → Nat) (hr : Ranked g d) (hsym
           have := dropped_dropChildren_key (vis g sv) next w prev _ s2 hmem (by rw [vis_cls, f2.regs]; exact hcls prev hpn)
           rw [vis_cls, vis_cls] at this
           exact this
+        · intro k hk
+          unfold popPath at hk
+          rw [dropped_setWd, dropped_of_regs sD s3 f3.regs, ← hsD] at hk
+          rcases dropped_dropChildren_new _ next w w k _ s2 hk with h | h
+          · left; rw [← hd2]; exact h
+          · right; rw [← hprev, hdown, ← vis_cls g sv]; exact h
         · unfold popPath
           exact f2.keep.trans (kD.trans (f3.keep.trans (keep_setWd _ w _)))
     · simp only [hcr, Bool.false_eq_true, if_false] at hc ⊢
@@ -1158,7 +1221,8 @@ theorem afterTraverse_cont (g : Graph) (d : Nat → Nat) (hr : Ranked g d) (hsym
         simp only [hpk] at hc ⊢
         obtain ⟨hcm, hnd, f, hs3, hf⟩ := pickChild_spec _ s2 next w c s3 hpk
         have hw3 : w < s3.workers.length := by rw [hs3]; exact hw2
-        refine ⟨.pushDown next c hlast ?_ (vis_cleanup_sub g sv next c hcm) ?_ (Or.inr (by rw [← hprev]; exact hdown)) ?_, ?_⟩
+        refine ⟨.pushDown next c hlast ?_ (vis_cleanup_sub g sv next c hcm) ?_ (Or.inr (by rw [← hprev]; exact hdown)) ?_
+          (by rw [← vis_relevant g sv]; exact (pickChild_rel _ s2 next w c s3 hpk).1), ?_⟩
         · rw [path_pushPath _ w c hw3, hs3]
           show (s2.wd w).path ++ [c] = _
           rw [f2.wd w]
@@ -1253,7 +1317,8 @@ theorem iter_cont (g : Graph) (d : Nat → Nat) (hr : Ranked g d) (hsym : EdgeSy
           simp only [hpk] at hc ⊢
           obtain ⟨hcm, hnd, f, hs3, hf⟩ := pickChild_spec _ s next w c s3 hpk
           have hw3 : w < s3.workers.length := by rw [hs3]; exact hw
-          refine ⟨.pushDown next c hl ?_ (vis_cleanup_sub g s next c hcm) ?_ (Or.inl hlen1') ?_, ?_⟩
+          refine ⟨.pushDown next c hl ?_ (vis_cleanup_sub g s next c hcm) ?_ (Or.inl hlen1') ?_
+            (by rw [← vis_relevant g s]; exact (pickChild_rel _ s next w c s3 hpk).1), ?_⟩
           · rw [path_pushPath _ w c hw3, hs3]; rfl
           · rw [vis_cls, vis_cls] at hnd; exact hnd
           · intro k
@@ -1290,7 +1355,8 @@ theorem iter_cont (g : Graph) (d : Nat → Nat) (hr : Ranked g d) (hsym : EdgeSy
               dsimp only
               obtain ⟨hcm, hnd, f, hs3, hf⟩ := pickParent_spec _ s next w c s3 hpk
               have hw3 : w < s3.workers.length := by rw [hs3]; exact hw
-              refine ⟨.pushUp next c hl ?_ (vis_setup_sub g s next c hcm) ?_ ?_, ?_⟩
+              refine ⟨.pushUp next c hl ?_ (vis_setup_sub g s next c hcm) ?_ ?_
+                (by rw [← vis_relevant g s]; exact (pickParent_rel _ s next w c s3 hpk).1), ?_⟩
               · rw [path_pushPath _ w c hw3, hs3]; rfl
               · rw [vis_cls, vis_cls] at hnd; exact hnd
               · intro k
